@@ -335,25 +335,33 @@ class ARig:
         self.to_ids = {}
 
     def set_store(self, store):
-        """real whole-tag Write Tag requests at the Connection Manager seam (never pokes values in)"""
+        """real whole-tag Write Tag requests at the Connection Manager seam (never pokes values in); -> [(kind,msg)]"""
         cur = dict(self.canon_store())
         for name, c in store:
             if cur[name] == c:
                 continue
+            if len(c) == 2 and c[0] == "other":
+                raise core.HarnessError("state %r is not seatable" % (store,))
             vals = dict(self.expand_store(((name, c),)))[name]
-            rpy = self.sim.cm(W.write_tag(W.tag_path(name), self.t, list(vals), len(vals)))
-            r = W.dec_reply(rpy)
+            try:
+                r = W.dec_reply(self.sim.cm(W.write_tag(W.tag_path(name), self.t, list(vals), len(vals))))
+            except Exception as exc:
+                return [("seat-failed", "whole-tag Write Tag of %s=%s raised %s: %s" % (name, _short(c), type(exc).__name__, exc))]
             if r["status"] != 0:
-                raise core.HarnessError("seating %s=%r refused: %r" % (name, c, r))
+                return [("seat-failed", "whole-tag Write Tag of %s=%s refused: %r" % (name, _short(c), r))]
         if self.canon_store() != store:
-            raise core.HarnessError("could not seat store %r (is %r)" % (store, self.canon_store()))
+            return [("seat-failed", "whole-tag Write Tag requests acknowledged but the store is %s, not %s"
+                     % (_short(self.canon_store()), _short(store)))]
         self.model.load(self.expand_store(store))
+        return []
 
     def seat(self, state):
         store, connected, known = state
         bad = []
         self.fresh_client()
-        self.set_store(store)
+        bad += self.set_store(store)
+        if bad:
+            return bad
         mark = self.env.mark()
         for tag in known:
             r = self.comm.Read(tag)
@@ -657,8 +665,11 @@ def expand_a(acc, item, tier, seed):
         initial_store = state[0] == a_initial(cfgkey)[0]
         for op, closed in ops:
             if not seated:
-                for k, m in rig.seat(state):
+                sb = rig.seat(state)
+                for k, m in sb:
                     acc.violation(k, {"part": "A", "cfg": cfgkey, "state": state, "op": None}, m)
+                if any(k == "seat-failed" for k, _ in sb):
+                    break                            # reported; nothing can be run from a state that cannot be established
                 seated = True
             acc.ev()
             acc.count("transitions")
@@ -672,7 +683,9 @@ def expand_a(acc, item, tier, seed):
             for k, m in bad:
                 acc.violation(k, {"part": "A", "cfg": cfgkey, "state": state, "op": op}, m)
             if changed:
-                if closed:
+                if bad:
+                    pass                 # a transition that violated the oracle has no trustworthy successor
+                elif closed:
                     acc.succ.add((("A",) + cfgkey, after))
                 else:
                     acc.count("probe_successors")
@@ -683,8 +696,8 @@ def expand_a(acc, item, tier, seed):
                     bad2, info2 = rig.step(("R", tag, cnt))
                     for k, m in bad2:
                         acc.violation("probe-readback:" + k, {"part": "A", "cfg": cfgkey, "state": state, "op": op}, m)
-                if rig.state()[1:] == state[1:] and not bad:
-                    rig.set_store(state[0])          # only the store moved: undo with a real write, keep the session
+                if rig.state()[1:] == state[1:] and not bad and not rig.set_store(state[0]):
+                    pass                             # only the store moved: undone with a real write, session kept
                 else:
                     seated = False
     acc.sample({"part": "A", "cfg": cfgkey, "state": states[0], "op": ops[len(ops) // 2][0]})
@@ -697,8 +710,11 @@ def seq_shard(acc, item, tier, seed):
     root = a_initial(cfgkey)
     for rest in itertools.product(alpha, repeat=depth - 1):
         seq = (alpha[first],) + rest
-        for k, m in rig.seat(root):
-            acc.violation(k, {"part": "S", "cfg": cfgkey, "ops": seq}, m)
+        sb = rig.seat(root)
+        for k, m in sb:
+            acc.violation(k, {"part": "S", "cfg": cfgkey, "ops": ()}, m)
+        if any(k == "seat-failed" for k, _ in sb):
+            break
         for j, op in enumerate(seq):
             acc.ev()
             acc.count("transitions")
@@ -1084,8 +1100,11 @@ def expand_b(acc, item, tier, seed):
         acc.violation(kind, {"part": "B", "cfg": cfgkey, "state": state, "req": req, "transport": transport}, msg)
 
     for state in states:
-        for k, m in br.rig.seat(state):
+        sb = br.rig.seat(state)
+        for k, m in sb:
             viol(k, state, None, None, m)
+        if any(k == "seat-failed" for k, _ in sb):
+            continue                                 # reported; nothing can be run from a state that cannot be established
         for k, m in br.open():
             viol(k, state, None, "open", m)
         acc.count("transitions", 3)
@@ -1111,7 +1130,9 @@ def expand_b(acc, item, tier, seed):
                 for k, m in bad:
                     viol(k, state, req, tr, m)
                 if changed:
-                    if closed:
+                    if bad:
+                        pass             # a transition that violated the oracle has no trustworthy successor
+                    elif closed:
                         if cfgkey[4] == "full":
                             acc.succ.add((("B",) + cfgkey, TS.norm_state(after)))
                     else:
